@@ -109,6 +109,28 @@ def system_run():
     return 'fail', log[-2500:]
 
 
+def system_run_relu():
+    """regression for the reorder-buffer repair (43e5cc78): relu on two discrete GPUs with unified memory
+    migrates a page away from a GPU that has vector loads in flight.  'pass' | 'hang' | 'fail' | 'skip'."""
+    out = os.path.join(vlib.BUILD, 'bin' + vlib._repo_tag(), 'relu_c19')
+    with vlib.Lock('gobuild' + vlib._repo_tag()):
+        rc, log = vlib.run([vlib.go_bin(), 'build', '-o', out, './amd/samples/relu'], cwd=vlib.REPO, env=vlib.go_env(), timeout=900)
+    if rc != 0:
+        return 'skip', log[-1500:]
+    d = os.path.join(vlib.BUILD, 'c19_relu_%d' % os.getpid())
+    os.makedirs(d, exist_ok=True)
+    try:
+        rc, log = vlib.run([out, '-length=64', '-gpus=1,2', '-timing', '-use-unified-memory', '-verify'], cwd=d, timeout=40)
+    finally:
+        import shutil
+        shutil.rmtree(d, ignore_errors=True)
+    if rc == 0 and 'Passed!' in log:
+        return 'pass', ''
+    if rc == 124:
+        return 'hang', ''
+    return 'fail', log[-2500:]
+
+
 DRV_HEADER = 'From VDrv Require Import Migration.\nOpen Scope N_scope.\n'
 
 
@@ -291,6 +313,15 @@ def main(argv):
             rep.violation({'property': PROP, 'what': 'atax -x=64 -y=64 -gpus=1,2 -timing -use-unified-memory -verify failed', 'log': detail},
                           text='whole-system page migration run failed')
             return rep.finish()
+        if st == 'pass':
+            st2, detail2 = system_run_relu()
+            rep.coverage['system_level_run_relu'] = st2
+            if st2 in ('hang', 'fail'):
+                rep.violation({'property': PROP, 'what': 'relu -length=64 -gpus=1,2 -timing -use-unified-memory -verify: ' + st2 +
+                               ' (a page is migrated away from a GPU with vector loads in flight; the shootdown must also reset the '
+                               'reorder buffers above the address translators)', 'log': detail2},
+                              text='whole-system page migration run (relu, 2 GPUs) does not complete: ' + st2)
+                return rep.finish()
 
     # ---- property monitor on what the implementation did
     bad = [(i, monitor(c)) for i, c in enumerate(cases)]
